@@ -126,6 +126,7 @@ def fromstr_rule(F, rep, ty):
     names = None
     accept = None          # the expression evaluated when the shape matches
     other_err = True
+    rejects = []           # bodies taken when the shape does not match
     if slice_form is not None:
         kind, x = slice_form
         n_next = 4           # exactly three pieces: the same condition as (Some, Some, Some, None) on successive next() calls
@@ -134,12 +135,15 @@ def fromstr_rule(F, rep, ty):
                 ids = slice3(a["pat"])
                 if ids and not a.get("guard"):
                     names, accept = ids, a["body"]
-                elif not is_err(a["body"]):
-                    other_err = False
+                else:
+                    rejects.append(a["body"])
+                    if not is_err(a["body"]):
+                        other_err = False
         else:
             ids = slice3(x["pat"])
             if ids:
                 names, accept = ids, root
+            rejects.append(x["els"])
             if not is_err(x["els"]):
                 other_err = False
     for x in (tir.walk(root) if slice_form is None else []):
@@ -149,14 +153,17 @@ def fromstr_rule(F, rep, ty):
                 kinds, nm = shape(a["pat"])
                 if kinds == ["Some", "Some", "Some", "None"] and not a.get("guard"):
                     names, accept = nm, a["body"]
-                elif not is_err(a["body"]):
-                    other_err = False
+                else:
+                    rejects.append(a["body"])
+                    if not is_err(a["body"]):
+                        other_err = False
         elif x.get("k") == "Let" and x.get("els") is not None and is_next_tuple(x.get("init") or {}):
             n_next = is_next_tuple(x["init"])
             kinds, nm = shape(x["pat"])
             if kinds == ["Some", "Some", "Some", "None"]:
                 names = nm
                 accept = root        # the rest of the function
+            rejects.append(x["els"])
             if not is_err(x["els"]):
                 other_err = False
     if not n_next:
@@ -167,6 +174,25 @@ def fromstr_rule(F, rep, ty):
     if accept is None:
         rep.ob("FromStr.accept", False, fn, "accept-arm", "%s::from_str has no (Some, Some, Some, None) case" % ty)
         return
+    # "strings that ARE three integers in 0..255 parse": no refusal other than the shape mismatch and a component that is not a u8
+    in_reject = set(id(y) for r_ in rejects for y in tir.walk(r_))
+    extra = []
+    for x in tir.walk(root):
+        if id(x) in in_reject:
+            continue
+        if x.get("k") == "Ret":
+            extra.append(x)
+        elif x.get("k") == "Call" and (declared(x) or "").endswith("::Err"):
+            extra.append(x)
+        elif x.get("k") == "Try":
+            y = L.strip_try(x)
+            parse = (y.get("k") == "Call" and (declared(y) or "") == "io::parse_u8") or (y.get("k") == "MethodCall" and y["method"] == "parse" and (y.get("gargs") or [None])[0] == "u8")
+            if not parse:
+                extra.append(x)
+        elif x.get("k") in ("MethodCall", "Call") and not tir.in_macro(x, "err", "format", "write") and (declared(x) or "").split("::")[-1] in ("unwrap", "expect", "panic", "unreachable"):
+            extra.append(x)
+    rep.ob("FromStr.no-extra-refusal", not extra, fn, "refusals", "%s::from_str can fail outside the shape test and the component parses (%s): a well-formed version string could be rejected" % (
+        ty, "; ".join("%s at %s" % (x.get("k"), tir.sp(x)) for x in extra[:3])))
 
     def component(x, depth=0):
         """binding id of the string a Version component is parsed from (through `?` and let-bound intermediates)"""
